@@ -23,7 +23,7 @@ OPAQUE = register("subst_opaque", _Opaque())
 UNCONVERTIBLE = [OPAQUE, (1, 2), register("subst_set", {1}),
                  uuid.UUID("51c2f442-bf61-11f1-b9da-02fc00000001"), 1 + 2j, bytearray(b"x")]
 
-VLIMIT = {"quick": 60, "thorough": 200}
+VLIMIT = {"quick": 100, "thorough": 250}
 
 
 def partials(w, depth=0):
@@ -43,10 +43,15 @@ def partials(w, depth=0):
     elif isinstance(w, list):
         for j, x in enumerate(w):
             if depth < 3:
-                for p in partials(x, depth + 1):
+                ps = partials(x, depth + 1)
+                for p in ps:
                     d = cp(w)
                     d[j] = p
                     out.append(d)
+                # a partial look-alike next to the full element: ambiguous windows for [..., a, ...]
+                for p in ps[:3]:
+                    out.append([cp(p)] + cp(w))
+                    out.append(cp(w) + [cp(p)])
     return out
 
 
@@ -73,6 +78,26 @@ def with_placeholders(w):
     return out
 
 
+def _float_leaf_variants(v, factors):
+    """v with one float leaf scaled by each factor (the math.isclose tolerance band)."""
+    out = []
+    if isinstance(v, float) and v == v and abs(v) not in (0.0, float("inf")):
+        return [v * f for f in factors]
+    if isinstance(v, list):
+        for j, x in enumerate(v):
+            for y in _float_leaf_variants(x, factors):
+                d = cp(v)
+                d[j] = y
+                out.append(d)
+    elif isinstance(v, dict):
+        for k, x in v.items():
+            for y in _float_leaf_variants(x, factors):
+                d = cp(v)
+                d[k] = y
+                out.append(d)
+    return out
+
+
 def is_plain(v):
     if v is E or v is Nil:
         return False
@@ -93,6 +118,8 @@ def subst_values(t, tier, placeholders=True):
             out += inject(w, z)
         if placeholders:
             out += with_placeholders(w)
+    for w in ws[:4]:
+        out += _float_leaf_variants(w, (1 + 5e-10, 1 - 5e-10))     # inside the tolerance band
     out += [OPAQUE, (1, 2)]
     return dedup(out)
 
@@ -117,6 +144,8 @@ def clean(s, v):
 def third_values(t, v, tier):
     base, _ = value_universe(t, VLIMIT[tier])
     out = list(base) + [cp(v)] + perturb(v) + [cp(u) for u in UNRELATED]
+    # just inside and just outside math.isclose's relative tolerance of 1e-9 around each float leaf
+    out += _float_leaf_variants(v, (1 + 1.4e-9, 1 - 1.4e-9, 1 + 9e-10, 1 - 9e-10, 1 + 2.5e-9))
     return dedup(out)
 
 
@@ -137,7 +166,9 @@ def carries(v, w, tol=0.1 + 1e-9):
                 return False
         return True
     if isinstance(v, float) and isinstance(w, float):
-        return v == w or abs(v - w) <= tol
+        # within the documented tolerance: one coarsest grid step absolutely, or math.isclose's
+        # own relative band (which is what a pinned float accepts around a huge value)
+        return v == w or abs(v - w) <= tol or abs(v - w) <= 2e-9 * max(abs(v), abs(w))
     try:
         return bool(v == w)
     except Exception:  # noqa: BLE001
